@@ -171,6 +171,8 @@ def sync_with_model(H, st0, lst, opts, nocopy=False, prehash=False, expect_fail=
         st1 = w.content()
         if not killed and r0.rc != 0:
             st1 = None        # refused or failed before writing: judged on the second run
+    if killed and st1 is not None:
+        H.post_kill = st1
     if st1 is not None:
         # killed: st1 is the post-scan state; not killed: no parity write was needed, st1 is the state after a complete sync
         w.learn_hashes(st1)
